@@ -28,7 +28,6 @@ import (
 type Policy struct {
 	NS   int64  `json:"ns"`   // time.Duration of the tier
 	Disk string `json:"disk"` // MoveTo ("" = none)
-	Conv int32  `json:"conv"` // int32(TTL.Seconds()) as evaluated on this platform (oracle for out-of-range durations)
 }
 type Cfg struct {
 	Cluster string   `json:"cluster"`
@@ -298,12 +297,6 @@ func rotateOnce(f *fake, cfg *Cfg, fault *Fault) (log []Call, failed bool, pnc s
 	return f.log, failed, pnc
 }
 
-func fillConv(cfg *Cfg) {
-	for i := range cfg.Days {
-		cfg.Days[i].Conv = int32(time.Duration(cfg.Days[i].NS).Seconds())
-	}
-}
-
 func runCase(c *Case) {
 	f := newFake()
 	for _, r := range c.Init {
@@ -320,7 +313,6 @@ func runCase(c *Case) {
 	}
 	for i := range c.Runs {
 		r := &c.Runs[i]
-		fillConv(&r.Cfg)
 		if r.Cfg.Days == nil {
 			r.Cfg.Days = []Policy{}
 		}
@@ -481,7 +473,6 @@ func genSeq(r *rand.Rand, id int) Case {
 			prevs = append(prevs, cur)
 		}
 		run := Run{Cfg: cur}
-		fillConv(&run.Cfg)
 		if r.Intn(100) < 35 {
 			L := callCount(f, &run.Cfg)
 			run.Fault = &Fault{At: r.Intn(L + 1), Eff: r.Intn(10) < 3}
@@ -500,8 +491,6 @@ func genExhaustive(r *rand.Rand, id *int, revert bool, max int) []Case {
 	if r.Intn(4) == 0 {
 		b = genCfg(r)
 	}
-	fillConv(&a)
-	fillConv(&b)
 	f := newFake()
 	fresh := r.Intn(5) == 0
 	if !fresh {
@@ -553,7 +542,6 @@ func genLegacy(r *rand.Rand, id int) Case {
 	if a.Policy == "" {
 		a.Policy = policies[r.Intn(len(policies))]
 	}
-	fillConv(&a)
 	f := newFake()
 	rotateOnce(f, &a, nil)
 	st := f.state()
